@@ -527,75 +527,84 @@ def run(rep, ctx):
                  "`return %s` converts long to int with no range check: an integer value beyond "
                  "INT_MAX silently becomes a different number" % render(v))
 
-    # ---- V1 --------------------------------------------------------------------------
-    v1 = rep.rule("C11.V1", "RANGE", "a quoted string value is exactly the bytes between the quotes (closed) or up to the end of the "
-                  "text (unterminated): case enumeration over (length, last byte is the quote)", floor=3)
-    sq = [x for x in funcs if x.name == "SkipToMatchingQuote"]
-    sp_ = [x for x in funcs if x.qn == "mp::internal::OptionHelper::Parse" and "string" in x.full and x.unit == "src/solver.cc"]
-    if not sq or not sp_:
-        raise AnalysisBroken("C11.V1: SkipToMatchingQuote / OptionHelper<std::string>::Parse not found")
-    q = sq[0]
-    par = q.params[0]["name"]
-    stm = [s_ for s_ in kids(q.body) if s_.get("mo") != "assert" and s_.get("m") != "assert" and s_["k"] != "NullStmt"]
-    shape = [render(x).replace(" ", "").replace("'\\x00'", "0") for x in stm]
-    want = ["charquote=%s[0]" % par, "++%s" % par, None, "return*%s?%s+1:%s" % (par, par, par)]
-    wl = [x for x in stm if x["k"] == "WhileStmt"]
-    okq = len(stm) == 4 and shape[0] == want[0] and shape[1] == want[1] and shape[3] == want[3] and len(wl) == 1 and \
-        render(kids(wl[0])[0]).replace(" ", "") == "*%s&&*%s!=quote" % (par, par) and render(kids(wl[0])[1]) == "++" + par
-    v1.check(okq, "scan-postcondition", short_loc(q.loc),
-             "SkipToMatchingQuote returns the position after the closing quote, or the end of the text if there is none",
-             "SkipToMatchingQuote has the form %s" % shape)
-    g = sp_[0]
-    endv = [v_ for v_ in g.walk() if v_["k"] == "VarDecl" and v_.get("name") == "end" and kids(v_)]
-    rets = [r_ for r_ in g.find(lambda n: n["k"] == "ReturnStmt") if endv and any(x.get("declId") == endv[0]["declId"] for x in walk(r_))]
-    if len(endv) != 1 or len(rets) != 1:
-        raise AnalysisBroken("C11.V1: the quoted branch of OptionHelper<std::string>::Parse is not `end = c ? a : b; return string(start+1, end)`")
-    co = strip(kids(endv[0])[0])
-    if co["k"] != "ConditionalOperator":
-        raise AnalysisBroken("C11.V1: `end` is not initialised by a conditional expression")
-    cnd, ea, eb = kids(co)
-    cur = g.params[0]["name"]
-    okshape = render(ea).replace(" ", "") == cur + "-1" and render(eb).replace(" ", "") == cur
-    ra = [render(a).replace(" ", "") for x in walk(rets[0]) if x["k"] in ("CXXConstructExpr", "CXXTemporaryObjectExpr") and
-          x.get("callee", "").startswith("std::basic_string") for a in kids(x)][:2]
-    v1.check(okshape and ra == ["start+1", "end"], "cut-form", short_loc(endv[0].get("l")),
-             "value = [start+1, end) with end = closing ? s-1 : s", "end = %s ? %s : %s; returned string(%s)" % (render(cnd), render(ea), render(eb), ra))
-    consts = [cv(x) for x in walk(cnd) if x["k"] == "IntegerLiteral"]
+    def _v1():
+        # ---- V1 --------------------------------------------------------------------------
+        v1 = rep.rule("C11.V1", "RANGE", "a quoted string value is exactly the bytes between the quotes (closed) or up to the end of the "
+                      "text (unterminated): case enumeration over (length, last byte is the quote)", floor=3)
+        sq = [x for x in funcs if x.name == "SkipToMatchingQuote"]
+        sp_ = [x for x in funcs if x.qn == "mp::internal::OptionHelper::Parse" and "string" in x.full and x.unit == "src/solver.cc"]
+        if not sq or not sp_:
+            raise AnalysisBroken("C11.V1: SkipToMatchingQuote / OptionHelper<std::string>::Parse not found")
+        q = sq[0]
+        par = q.params[0]["name"]
+        stm = [s_ for s_ in kids(q.body) if s_.get("mo") != "assert" and s_.get("m") != "assert" and s_["k"] != "NullStmt"]
+        shape = [render(x).replace(" ", "").replace("'\\x00'", "0") for x in stm]
+        want = ["charquote=%s[0]" % par, "++%s" % par, None, "return*%s?%s+1:%s" % (par, par, par)]
+        wl = [x for x in stm if x["k"] == "WhileStmt"]
+        okq = len(stm) == 4 and shape[0] == want[0] and shape[1] == want[1] and shape[3] == want[3] and len(wl) == 1 and \
+            render(kids(wl[0])[0]).replace(" ", "") == "*%s&&*%s!=quote" % (par, par) and render(kids(wl[0])[1]) == "++" + par
+        v1.check(okq, "scan-postcondition", short_loc(q.loc),
+                 "SkipToMatchingQuote returns the position after the closing quote, or the end of the text if there is none",
+                 "SkipToMatchingQuote has the form %s" % shape)
+        g = sp_[0]
+        endv = [v_ for v_ in g.walk() if v_["k"] == "VarDecl" and v_.get("name") == "end" and kids(v_)]
+        rets = [r_ for r_ in g.find(lambda n: n["k"] == "ReturnStmt") if endv and any(x.get("declId") == endv[0]["declId"] for x in walk(r_))]
+        if len(endv) != 1 or len(rets) != 1:
+            raise AnalysisBroken("C11.V1: the quoted branch of OptionHelper<std::string>::Parse is not `end = c ? a : b; return string(start+1, end)`")
+        co = strip(kids(endv[0])[0])
+        if co["k"] != "ConditionalOperator":
+            raise AnalysisBroken("C11.V1: `end` is not initialised by a conditional expression")
+        cnd, ea, eb = kids(co)
+        cur = g.params[0]["name"]
+        okshape = render(ea).replace(" ", "") == cur + "-1" and render(eb).replace(" ", "") == cur
+        ra = [render(a).replace(" ", "") for x in walk(rets[0]) if x["k"] in ("CXXConstructExpr", "CXXTemporaryObjectExpr") and
+              x.get("callee", "").startswith("std::basic_string") for a in kids(x)][:2]
+        v1.check(okshape and ra == ["start+1", "end"], "cut-form", short_loc(endv[0].get("l")),
+                 "value = [start+1, end) with end = closing ? s-1 : s", "end = %s ? %s : %s; returned string(%s)" % (render(cnd), render(ea), render(eb), ra))
+        consts = [cv(x) for x in walk(cnd) if x["k"] == "IntegerLiteral"]
 
-    def evc(n, d, m):
-        n = strip(n)
-        r_ = render(n).replace(" ", "")
-        if r_ == "%s-start" % cur:
-            return d
-        if r_ in ("%s[-1]==*start" % cur, "*start==%s[-1]" % cur, "%s[-1]==start[0]" % cur):
-            return int(m)
-        if n["k"] == "IntegerLiteral":
-            return int(n["v"])
-        if n["k"] == "BinaryOperator":
-            a_, b_ = kids(n)
-            op = n["op"]
-            if op == "&&":
-                return int(bool(evc(a_, d, m)) and bool(evc(b_, d, m)))
-            if op == "||":
-                return int(bool(evc(a_, d, m)) or bool(evc(b_, d, m)))
-            x_, y_ = evc(a_, d, m), evc(b_, d, m)
-            return {"<": int(x_ < y_), "<=": int(x_ <= y_), ">": int(x_ > y_), ">=": int(x_ >= y_), "==": int(x_ == y_), "!=": int(x_ != y_),
-                    "-": x_ - y_, "+": x_ + y_}[op]
-        if n["k"] == "UnaryOperator" and n.get("op") == "!":
-            return int(not evc(kids(n)[0], d, m))
-        raise AnalysisBroken("C11.V1: condition atom `%s` outside the fragment" % r_)
-    bad = []
-    top = max([c for c in consts if c is not None] + [2]) + 4
-    for L in range(0, top):
-        # closed: s - start = L + 2, last byte is the quote
-        if not evc(cnd, L + 2, True):
-            bad.append("a closed quoted value of length %d keeps its closing quote" % L)
-        # unterminated: s - start = L + 1; the last byte is the (opening) quote only when L == 0
-        if evc(cnd, L + 1, L == 0):
-            bad.append("an unterminated quoted value of length %d loses its last byte" % L)
-    v1.check(not bad, "cut-cases", short_loc(endv[0].get("l")), "%d (length, closed/unterminated) cases: the value is exactly the quoted bytes" % (2 * top),
-             "; ".join(bad[:2]))
-    rep.extra["v1_cases"] = 2 * top
+        def evc(n, d, m):
+            n = strip(n)
+            r_ = render(n).replace(" ", "")
+            if r_ == "%s-start" % cur:
+                return d
+            if r_ in ("%s[-1]==*start" % cur, "*start==%s[-1]" % cur, "%s[-1]==start[0]" % cur):
+                return int(m)
+            if n["k"] == "IntegerLiteral":
+                return int(n["v"])
+            if n["k"] == "BinaryOperator":
+                a_, b_ = kids(n)
+                op = n["op"]
+                if op == "&&":
+                    return int(bool(evc(a_, d, m)) and bool(evc(b_, d, m)))
+                if op == "||":
+                    return int(bool(evc(a_, d, m)) or bool(evc(b_, d, m)))
+                x_, y_ = evc(a_, d, m), evc(b_, d, m)
+                return {"<": int(x_ < y_), "<=": int(x_ <= y_), ">": int(x_ > y_), ">=": int(x_ >= y_), "==": int(x_ == y_), "!=": int(x_ != y_),
+                        "-": x_ - y_, "+": x_ + y_}[op]
+            if n["k"] == "UnaryOperator" and n.get("op") == "!":
+                return int(not evc(kids(n)[0], d, m))
+            raise AnalysisBroken("C11.V1: condition atom `%s` outside the fragment" % r_)
+        bad = []
+        top = max([c for c in consts if c is not None] + [2]) + 4
+        for L in range(0, top):
+            # closed: s - start = L + 2, last byte is the quote
+            if not evc(cnd, L + 2, True):
+                bad.append("a closed quoted value of length %d keeps its closing quote" % L)
+            # unterminated: s - start = L + 1; the last byte is the (opening) quote only when L == 0
+            if evc(cnd, L + 1, L == 0):
+                bad.append("an unterminated quoted value of length %d loses its last byte" % L)
+        v1.check(not bad, "cut-cases", short_loc(endv[0].get("l")), "%d (length, closed/unterminated) cases: the value is exactly the quoted bytes" % (2 * top),
+                 "; ".join(bad[:2]))
+        rep.extra["v1_cases"] = 2 * top
+
+    try:
+        _v1()
+    except AnalysisBroken as ab:
+        if any(not i_['ok'] for rl_ in rep.rules for i_ in rl_.instances):
+            rep.extra['analysis_incomplete'] = str(ab)
+        else:
+            raise
     return rep
 
 
